@@ -69,6 +69,8 @@ def text : Leaf → Option Text
   | .num _ t => some t
   | .stringer _ t z => if z then none else some t
   | .opaque _ _ => none
+  | .ev (.prim _ t _) => some t      -- a known primitive prints as Go prints it
+  | .ev _ => none
 end Leaf
 
 def unknownText : Text := "UNKNOWN".toList
